@@ -42,6 +42,7 @@ theorem facts_match :
     FactsC05.subGraphSavedWithSkipPre = Expected.C05.subGraphSavedWithSkipPre ∧
     FactsC05.rerunInputsSavedZero = Expected.C05.rerunInputsSavedZero ∧
     FactsC05.foldWithoutGet = Expected.C05.foldWithoutGet ∧
+    FactsC05.checkpointStartEndPairsSet = Expected.C05.checkpointStartEndPairsSet ∧
     FactsC05.stepCounterRestartsOnResume = true ∧
     FactsC05.resumeBranches = 2 := by decide
 
